@@ -288,6 +288,10 @@ pub mod verif_intern;
 mod views;
 mod zalsa;
 mod zalsa_local;
+#[cfg(salsa_rs_salsa_verif)]
+pub mod verif_proto;
+#[cfg(salsa_rs_salsa_verif)]
+pub use verif_proto::verif_take_proto_trace;
 
 #[cfg(not(feature = "inventory"))]
 mod nonce;
